@@ -906,6 +906,43 @@ server6:
 		s.stop()
 	}
 
+	// ------------------------------------------------------------------ DHCPv4 on a multicast group with a zone
+	{
+		conf := fmt.Sprintf("server4:\n  listen: ['239.67.67.67%%ve0']\n  plugins:\n    - server_id: 10.77.0.1\n    - range: %s/leases-mc.db 10.77.0.100 10.77.0.180 60s\n    - netmask: 255.255.255.0\n", dir)
+		name := "real binary, DHCPv4 listening on the multicast group 239.67.67.67%ve0"
+		w.varServerID = []byte{10, 77, 0, 1}
+		s, state := w.startSrv(dir, "mc4", conf, nil, []string{"/proc/net/udp:0043"}, 10*time.Second, nil)
+		if state != "ready" {
+			if s != nil {
+				s.stop()
+			}
+			ctx.Inconclusive("wire/multicast-v4: the server did not come up (%s)", state)
+			return
+		}
+		mcMAC := []byte{0x01, 0x00, 0x5e, 0x43, 0x43, 0x43}
+		for k, bf := range []uint16{0, 0x8000, 0} {
+			mac := []byte{0x02, 0xc4, byte(w.rng.Intn(256)), byte(w.rng.Intn(256)), 4, byte(k)}
+			w.xid++
+			p := pkt.Request4(0xe0000+w.xid, mac, byte(1+2*(k/2)), pkt.O4(55, 1, 3))
+			p.Flags = bf
+			req := p.Bytes()
+			obs := w.exchange("ve1", pkt.BuildFrame4(mac, mcMAC, [4]byte{10, 77, 0, 52}, [4]byte{239, 67, 67, 67}, 68, 67, req), 500*time.Millisecond)
+			_, o := w.judgeVariant4(name, req, obs, fmt.Sprintf("request (flags %#x) sent to the group", bf))
+			if w.srvDied(s, name, "a request sent to the multicast group", req) {
+				return
+			}
+			ctx.Eval("C19", 1)
+			if o == nil {
+				ctx.Count("wire.multicast_v4.unanswered", 1)
+			} else if o.link != "ve1" {
+				ctx.Viol("C15", "wire:wrong-link", "%s: the reply to a request received on ve1 left on the link of %s", name, o.link)
+			} else {
+				ctx.Count("wire.multicast_v4.replies_on_arrival_link", 1)
+			}
+		}
+		s.stop()
+	}
+
 	// ------------------------------------------------------------------ a section without listeners
 	for vi, bad := range []string{"    - no_such_plugin: x\n", "    - dns:\n", "    - server_id: LL\n"} {
 		conf := "server4:\n  listen: ['0.0.0.0']\n  plugins:\n    - server_id: 10.77.0.1\n    - netmask: 255.255.255.0\nserver6:\n  listen: " + []string{"[]", "''", "[]"}[vi] + "\n  plugins:\n" + bad
